@@ -32,14 +32,94 @@ def alloc_phase(rep, exe_impl, exe_model):
     return f, v, len(cases)
 
 
+def gen_unreadable_tree_case(rng):
+    """a sub-directory of the project's tree of links cannot be read when the snapshot is due (its mode was changed, a
+    backup tool locked it): the walk cannot descend - the pass either reports that or the snapshot is complete"""
+    import world_common as wc
+    s = wc.Script()
+    W, R = wc.WATCH, wc.R
+    wc.setup_world(s, wc.base_cfg(deb=0))
+    s.start()
+    s.exec(3, wc.X + "/vim")
+    root, name = rng.choice([(W + "/proj", "proj"), (W + "/pp/p1", "p1")])
+    members = ["a.txt", "sub/b.txt", "sub/deep/c.txt"]
+    for m in members:
+        s.put(root + "/" + m, "one " + m)
+        s.write(3, root + "/" + m)
+    s.tick(1)
+    s.dump()
+    s.timeout()
+    s.dump()
+    s.put(root + "/a.txt", "two")
+    s.write(3, root + "/a.txt")
+    locked = "%s/k/var/projects/%s/%s" % (R, name, rng.choice(["sub", "sub/deep"]))
+    s.add("chmodx %s %s" % (wc.hexs(locked), rng.choice(["000", "300"])))
+    s.tick(1)
+    s.dump()
+    s.timeout()
+    s.dump()
+    s.add("chmodx %s 755" % wc.hexs(locked))
+    return s.text(), {}
+
+
+def mon_silent_incomplete_snapshot(steps, meta):
+    """'either still completes the operation or reports an error': a pass that reports NO error and created a snapshot
+    has put every versioned member that still exists into it"""
+    prev = None
+    between = []
+    seen = {}        # links of the trees of links seen in any earlier listing (a locked directory cannot be listed)
+    for st in steps:
+        if st.op in wk.HANDLER_OPS:
+            between.append(st)
+        if st.dump is None:
+            continue
+        cur = st.dump
+        if prev is not None:
+            seen.update({p: e for p, e in prev.items() if p.startswith("/k/var/projects/") and e[0] == "file"})
+        if prev is not None and len(between) == 1 and between[0].op == "timeout" and (between[0].result or "").startswith("pause"):
+            for sdir in [p for p, e in cur.items() if e[0] == "dir" and p not in prev and wk.re.match(r"^/k/projects/[^/]+/[^/]+$", p)]:
+                name = sdir.split("/")[3]
+                root = wk.PROJECTS.get(name)
+                if root is None:
+                    continue
+                pre = "/k/var/projects/%s/" % name
+                for p, e in seen.items():
+                    if p.startswith(pre) and e[0] == "file":
+                        m = p[len(pre):]
+                        if (root + "/" + m) in cur and cur[root + "/" + m][0] == "file" and (sdir + "/" + m) not in cur:
+                            return ("the pass reported no error (%s), yet its snapshot %s lacks %s, which was versioned as part of the project and still exists: "
+                                    "a failure inside the walk was swallowed" % (between[0].result, sdir, m))
+        prev = cur
+        between = []
+    return None
+
+
+wk.MONITORS["silent_incomplete_snapshot"] = mon_silent_incomplete_snapshot
+
+
+def extra_phases(rep, exe_impl, exe_model):
+    f, v, n = alloc_phase(rep, exe_impl, exe_model)
+    if not f:
+        import random
+        rng = random.Random(rep.seed + 10)
+        cases = []
+        for i in range(8 if rep.tier == "quick" else 60):
+            t, m = gen_unreadable_tree_case(rng)
+            cases.append(("ut%d" % i, t, m))
+        # (directory modes are not part of the model's file system: implementation only)
+        f2, v2 = wk.run_cases_known(rep, exe_impl, None, cases, ["silent_incomplete_snapshot", "store_immutable", "queue_form"], known)
+        f, v, n = f or f2, v + v2, n + len(cases)
+    return f, v, n
+
+
 def main(rep):
-    wk.standard_main(rep, fault=True, extra=alloc_phase, fault_monitors=["fault_reported", "expected_handled", "completed_exact", "exec_completed", "accepted_is_queued", "partial_snapshot", "snapshot_members", "recovery", "no_partial", "position_kept", "position_not_ahead", "store_immutable", "queue_form"],
+    wk.standard_main(rep, fault=True, extra=extra_phases, fault_monitors=["fault_reported", "expected_handled", "completed_exact", "exec_completed", "accepted_is_queued", "partial_snapshot", "snapshot_members", "recovery", "no_partial", "position_kept", "position_not_ahead", "store_immutable", "queue_form"],
                      known=known,
                      rule=("one failing system call at a time: every call index of the implementation's own log of the operation under test in each scenario "
                            "family x plausible errnos of that call (open: EACCES ENOSPC EMFILE EIO ENOENT, EEXIST at an exclusive create; mkdir: EACCES ENOSPC; sendfile/write: EIO ENOSPC; "
                            "others EIO/ENOMEM), followed by release, restart, drain; outcome, error trace, call log and disk compared with the model under the "
-                           "same fault; the expected conditions (ENOENT/EACCES at the open of the source, EEXIST at the exclusive create) must not end the operation in an error; every case is non-trivial"))
+                           "same fault; the expected conditions (ENOENT/EACCES at the open of the source, EEXIST at the exclusive create) must not end the operation in an error; every case is non-trivial; plus (implementation only) a sub-directory of a project's tree of links made unreadable before its snapshot is due: a pass that reports no error has a complete snapshot"))
 
 
 def replay(rep, path):
-    return wk.replay_world(rep, path, ["fault_reported", "expected_handled", "completed_exact", "exec_completed", "accepted_is_queued", "partial_snapshot", "snapshot_members", "recovery", "no_partial", "store_immutable"])
+    return wk.replay_world(rep, path, ["fault_reported", "expected_handled", "completed_exact", "exec_completed", "accepted_is_queued", "partial_snapshot", "snapshot_members", "recovery", "no_partial", "store_immutable", "silent_incomplete_snapshot"])
